@@ -85,3 +85,14 @@ CLAIMS["C18"] = {
             "UDP incl. the Noise early-data confirmation. Two genuine verifier defects found (wrong certificate of the chain pinned; RSA-PSS accepted), repaired, kept as witnesses. 24/25 probe mutants detected (1 not a violation). Exploration.",
     "note": "Trusted: crypto/x509, sha256, go-multihash, synctest's virtual clock; 'server certificate' = rawCerts[0]; the rotation-offset formula is not asserted; the early-data confirmation is exercised only in the thorough tier.",
 }
+
+CLAIMS["C19"] = {
+    "technique": "rapid property-based testing in synctest bubbles with a provenance oracle, plus native coverage-guided fuzzing of header templates (thorough)",
+    "design_ref": "DESIGN.md section 3, C19",
+    "text": "Real ServerPeerIDAuth instances (driven through ServeHTTP) and the real ClientPeerIDAuth (against a malicious RoundTripper) are attacked with headers derived from captured honest handshakes: four key types, "
+            "client- and server-initiated flows, two hostnames, two server secrets, 12 mutation/swap/re-sign/forge operators and virtual time around both TTL boundaries. Every identity reported through Next or returned by the "
+            "client must be backed by an unexpired token this instance issued to that peer, or by a signature verifying under that peer's key over this instance's unexpired challenge, its public key and the request's Host "
+            "(client: over the client's own challenge of that call, its key and the hostname). 19/22 probe mutants detected in the quick tier (3 are not violations). Exploration.",
+    "note": "Trusted: core/crypto Sign/Verify (C08), synctest virtual time, the 5 min challenge TTL constant. Not asserted: token/hostname binding, opaque-host equality when the signature covers the request Host, completeness "
+            "(honest material accepted is a harness precondition). Handler panics (one found for oversized public keys) report no identity and are counted, not judged.",
+}
